@@ -97,6 +97,13 @@ def evalRepeated (M : Matcher) (defined : List Int) (r : RepeatedC) (vs : List S
 
 def ofBool (b : Bool) : Verdict := if b then .accept else .reject
 
+/-- `map.min_pairs` (`uint(this.size()) < rules.min_pairs`), `map.max_pairs`, `map.values`: every
+value against the value rules. `vs` are the values of the map (keys carry no rules). -/
+def evalMap (M : Matcher) (defined : List Int) (m : MapC) (vs : List Scalar) : Bool :=
+  optAll m.minPairs (fun n => decide (n ≤ vs.length)) &&
+  optAll m.maxPairs (fun n => decide (vs.length ≤ n)) &&
+  optAll m.values (fun c => vs.all (evalItem M defined c))
+
 /-- `msg.Has(field)`: presence-tracking fields are set or not; fields without presence "have" a
 value iff it is not the zero value; lists iff non-empty. -/
 def fieldHas (pres : Bool) : FieldVal → Bool
@@ -123,6 +130,7 @@ def pvField (M : Matcher) (defined : List Int) (c : Option FieldC) (pres : Bool)
       match c.typ, v with
       | .item ic, .single s => ofBool (evalItem M defined ic s)
       | .repeated r, .list vs => evalRepeated M defined r vs
+      | .map m, .list vs => ofBool (evalMap M defined m vs)
       | .item .none, _ => .accept
       | _, _ => .reject
 
